@@ -57,3 +57,9 @@ prop("C18", ["contracts.c18_lss"],
               "at most one reply per request, delivered through LssMaster.on_message_received; silence = queue.Empty after RESPONSE_TIMEOUT",
               "queue.Queue is FIFO (pyvc/libmodels.py)"],
      not_decided=["several slaves answering at once; real-time behaviour of the 10 ms / 200 ms sleeps"])
+
+prop("C02", ["contracts.c02_server", "contracts.c06_localnode"], ["OnRequest", "OnRequestFresh", "NodeGetData", "NodeSetData"],
+     assumed=["node behind the server (env/sdonode.py): get_data returns the entry's bytes or raises SdoAbortedError, set_data "
+              "accepts or raises SdoAbortedError; LocalNode's own get_data/set_data are contracted separately",
+              "Network.send_message does not raise (env/net.py)"],
+     not_decided=["block transfer on the server side (not implemented by the library: refused with 0x05040001)"])
